@@ -673,3 +673,250 @@ def reference_effective(seq, name, normalized):
 
 GPV = _mk_accessor('getPropertyValue', 'value', True)
 GPP = _mk_accessor('getPropertyPriority', 'priority', False)
+
+
+# ------------------------------------------------------------------ __nnames: "length, indexing, iteration, keys and membership enumerate exactly
+# the distinct normalised names". The private helper behind length / item / keys / __contains__ / __iter__ builds the name list by a reversed scan
+# with a de-duplicating append. Contract (entry lists of any length): the names handed back are pairwise different, every one is the normalised
+# name of some Property entry, and every Property entry's normalised name is among them. (The ORDER - by last occurrence - is left to the
+# bounded part.)
+NN = register(Target('cssutils/css/cssstyledeclaration.py', 'CSSStyleDeclaration.__nnames', ['C10']))
+
+
+@NN.inputs
+def _in_nn(I):
+    me, seq = mk_decl(I)
+    I.p.ghost['seq'] = seq
+    I.p.note_assumption('Property.value / .priority / .name / .literalname are read as stored fields of the entry (their getters return the stored text)')
+    return {'self': me, 'seq': seq}
+
+
+def _nn_terms(I, seq):
+    p = I.p
+    item, ival = _schemas()
+    vid_ = lambda j: z3.Select(H.heap_array(p, item, 'value'), z3.Select(seq.elems, j))
+    is_prop = lambda j: z3.Select(H.heap_array(p, ival, 'kind'), vid_(j)) == PROP
+    pname = lambda j: z3.Select(H.heap_array(p, ival, 'name'), vid_(j))
+    return is_prop, pname
+
+
+def _nn_facts(I, seq, names_elems, names_len, done):
+    """the three clauses over the entries for which done(k) holds"""
+    p = I.p
+    is_prop, pname = _nn_terms(I, seq)
+    i, j, k, m = H._bound_var(p, 'i'), H._bound_var(p, 'j'), H._bound_var(p, 'k'), H._bound_var(p, 'm')
+    k2, m2 = H._bound_var(p, 'k'), H._bound_var(p, 'm')
+    nm = lambda x: z3.Select(names_elems, x)
+    return z3.And(
+        names_len >= 0,
+        z3.ForAll([i, j], z3.Implies(z3.And(0 <= i, i < j, j < names_len), nm(i) != nm(j))),
+        z3.ForAll([k], z3.Implies(z3.And(done(k), is_prop(k)), z3.Exists([m], z3.And(0 <= m, m < names_len, nm(m) == pname(k))))),
+        z3.ForAll([m2], z3.Implies(z3.And(0 <= m2, m2 < names_len), z3.Exists([k2], z3.And(done(k2), is_prop(k2), pname(k2) == nm(m2))))))
+
+
+def _nn_inv(I, fr, it):
+    seq = I.p.ghost['seq']
+    names = fr.lookup('names')
+    if isinstance(names, SX.SList):
+        if names.items:
+            raise Unsupported('concrete non-empty name list at the loop head')
+        # loop entry: no name yet, and no entry processed yet (reversed scan: q starts at the last position)
+        k = H._bound_var(I.p, 'k')
+        return z3.Not(z3.Exists([k], it.done(k)))
+    return _nn_facts(I, seq, names.elems, names.length, it.done)
+
+
+def _nn_havoc(I, fr):
+    p = I.p
+    p.counter += 1
+    fr.store('names', H.SymList(z3.Array(f'names!{p.counter}', I_, S_), z3.Int(f'nameslen!{p.counter}'), H.STR))
+
+
+NN.loops[('loop', 1)] = {'name': 'dedup_scan', 'inv': _nn_inv, 'havoc': ['item', 'val'], 'havoc_extra': [_nn_havoc]}
+
+
+def distinct_names_of(seq):
+    """independent reference (replay): the set of normalised names of the Property entries"""
+    from cssutils.css import Property
+    return {it.value.name for it in seq if isinstance(it.value, Property)}
+
+
+def nn_post(seq, result):
+    """native form: result = what __nnames returned (an iterator)"""
+    got = list(result)
+    return len(got) == len(set(got)) and set(got) == distinct_names_of(seq)
+
+
+def _m_nn_post(I, args, kw):
+    seq, result = args
+    if isinstance(result, SX.SList):
+        if result.items:
+            raise Unsupported('concrete non-empty result')
+        is_prop, _ = _nn_terms(I, seq)
+        k = H._bound_var(I.p, 'k')
+        return Sym('bool', z3.ForAll([k], z3.Implies(z3.And(k >= 0, k < seq.length), z3.Not(is_prop(k)))))
+    v = H.view_of(result)
+    if v is None or v.base.schema is not H.STR:
+        return Sym('bool', z3.BoolVal(False))
+    # the view must cover the whole name list (any order of traversal enumerates the same set)
+    whole = z3.And(v.lo == 0, v.hi == v.base.length)
+    return Sym('bool', z3.And(whole, _nn_facts(I, seq, v.base.elems, v.base.length, lambda k: z3.And(k >= 0, k < seq.length))))
+
+
+NN.models[nn_post] = Model(_m_nn_post, 'post (z3)', assumed=False)
+
+
+@NN.ensure
+def enumerates_exactly_the_distinct_normalised_names(seq, result):
+    return nn_post(seq, result)
+
+
+def _nn_native(mod, conc, model):
+    s = build_decl(conc, model)
+    r = list(s._CSSStyleDeclaration__nnames())
+    return ('return', r, {'seq': list(s.seq)})
+
+
+NN.native_call = _nn_native
+
+
+# ------------------------------------------------------------------ keys / item / __contains__: clients of __nnames, verified against ITS contract
+def _m_nnames_contract(I, args, kw):
+    """__nnames as a callee: a (reversed) view over a fresh name list about which only the proved postcondition is known"""
+    p = I.p
+    me = args[0]
+    seq = me.fields['_seq']
+    p.counter += 1
+    names = H.SymList(z3.Array(f'nnames!{p.counter}', I_, S_), z3.Int(f'nnameslen!{p.counter}'), H.STR)
+    p.assume(_nn_facts(I, seq, names.elems, names.length, lambda k: z3.And(k >= 0, k < seq.length)))
+    view = H.ListView(names, z3.IntVal(0), names.length, True, False)
+    p.ghost.setdefault('nnames_calls', []).append(view)
+    return view
+
+
+def _mk_nn_client(meth, extra_inputs):
+    t = register(Target('cssutils/css/cssstyledeclaration.py', f'CSSStyleDeclaration.{meth}', ['C10']))
+    t.models.update(SPEC_MODELS)
+
+    @t.inputs
+    def _in(I):
+        import cssutils.css as C
+        me, seq = mk_decl(I)
+        p = I.p
+        p.engine.models[C.CSSStyleDeclaration._CSSStyleDeclaration__nnames] = Model(
+            _m_nnames_contract, 'CSSStyleDeclaration.__nnames (own contract, proved as its own target)', assumed=False)
+        p.note_assumption('Property.value / .priority / .name / .literalname are read as stored fields of the entry (their getters return the stored text)')
+        env = {'self': me, 'seq': seq}
+        env.update(extra_inputs(I))
+        return env
+    return t
+
+
+KEYS = _mk_nn_client('keys', lambda I: {})
+KEYS.models[nn_post] = Model(_m_nn_post, 'post (z3)', assumed=False)
+
+
+@KEYS.ensure
+def keys_are_exactly_the_distinct_normalised_names(seq, result):
+    return nn_post(seq, result)
+
+
+def _entry_lists():
+    import itertools
+    kinds = [None, ('a', 'a', '', 'v1'), ('a', 'A', '', 'v2'), ('a', 'a', 'important', 'v3'), ('b', 'b', '', 'v5'), ('c', 'C', '', 'v6')]
+    for n in range(0, 4):
+        yield from itertools.product(kinds, repeat=n)
+    five = [(x, x, '', 'v') for x in 'abcde']
+    yield tuple(five)
+    yield tuple(five + [None] + five[:2])
+    yield tuple([five[0], None, five[1], five[0], five[2], five[3], five[1]])
+
+
+def _client_native(call, args_of, post, arg_names):
+    """the solver's input first; when the real function meets the clause there, a battery of small and a few longer blocks"""
+    def run(mod, conc, model):
+        def once(s, args):
+            r = call(s, *args)
+            o = {'seq': list(s.seq), 'ghost': {}}
+            o.update(dict(zip(arg_names, args)))
+            return ('return', r, o)
+        first = once(build_decl(conc, model), [conc[a] for a in arg_names])
+        if not post(first):
+            return first
+        for entries in _entry_lists():
+            for args in args_of(conc):
+                o = once(build_from_entries(entries), list(args))
+                if not post(o):
+                    return o
+        return first
+    return run
+
+
+KEYS.native_call = _client_native(lambda s: s.keys(), lambda conc: [()], lambda o: nn_post(o[2]['seq'], o[1]), [])
+KEYS.battery_on_unknown = True
+
+ITEM = _mk_nn_client('item', lambda I: {'index': I.p.fresh('int', 'index')})
+
+
+def item_post(ghost, seq, index, result):
+    """native form: the names in the order of their last occurrence (independent reference), indexed the Python way, '' outside"""
+    from cssutils.css import Property
+    names = []
+    for it in reversed(seq):
+        if isinstance(it.value, Property) and it.value.name not in names:
+            names.append(it.value.name)
+    names.reverse()
+    return result == (names[index] if -len(names) <= index < len(names) else '')
+
+
+def _m_item_post(I, args, kw):
+    ghost, seq, index, result = args
+    calls = ghost.get('nnames_calls', [])
+    if len(calls) != 1:
+        return Sym('bool', z3.BoolVal(False))
+    v = calls[0]
+    n = v.count()
+    t = H.to_int(index)
+    j = z3.If(t < 0, n + t, t)
+    el = z3.Select(v.base.elems, v.pos(j))
+    return Sym('bool', z3.If(z3.And(t < n, t >= -n), lift(result) == el, lift(result) == z3.StringVal('')))
+
+
+ITEM.models[item_post] = Model(_m_item_post, 'post (z3)', assumed=False)
+
+
+@ITEM.ensure
+def item_indexes_the_name_list_and_is_empty_outside(ghost, seq, index, result):
+    return item_post(ghost, seq, index, result)
+
+
+ITEM.native_call = _client_native(lambda s, i: s.item(i), lambda conc: [(i,) for i in dict.fromkeys(list(range(-8, 9)) + [conc['index']])],
+                                  lambda o: item_post({}, o[2]['seq'], o[2]['index'], o[1]), ['index'])
+ITEM.battery_on_unknown = True
+
+CONTAINS = _mk_nn_client('__contains__', lambda I: {'nameOrProperty': I.p.fresh('str', 'name')})
+
+
+def contains_post(seq, nameOrProperty, result):
+    return bool(result) == (normalize(nameOrProperty) in distinct_names_of(seq))
+
+
+def _m_contains_post(I, args, kw):
+    seq, name, result = args
+    is_prop, pname = _nn_terms(I, seq)
+    k = H._bound_var(I.p, 'k')
+    want = z3.Exists([k], z3.And(k >= 0, k < seq.length, is_prop(k), pname(k) == lift(_norm(I, name))))
+    return Sym('bool', SX.as_bool_term(truth(result)) == want)
+
+
+CONTAINS.models[contains_post] = Model(_m_contains_post, 'post (z3)', assumed=False)
+
+
+@CONTAINS.ensure
+def membership_is_by_normalised_name(seq, nameOrProperty, result):
+    return contains_post(seq, nameOrProperty, result)
+
+
+CONTAINS.native_call = _client_native(lambda s, n: n in s, lambda conc: [(n,) for n in dict.fromkeys(['a', 'A', 'b', 'c', 'C', '\\61', 'd', conc['nameOrProperty']])],
+                                      lambda o: contains_post(o[2]['seq'], o[2]['nameOrProperty'], o[1]), ['nameOrProperty'])
+CONTAINS.battery_on_unknown = True
